@@ -133,3 +133,12 @@ CASES += [
         (CFM, "        self.cfuncs = [None]*(nof+1)\n", "        self.cfuncs = [None]*(nof+1)\n        self._temp_known = None\n", 1),
         (CFM, "            self.cfuncs[i] = save_cfunc[i]\n", "            self.cfuncs[i] = save_cfunc[i]\n            self._temp_known = None\n", 1)]},
 ]
+
+CASES += [
+    {"name": "requested temperature written into the stored dictionaries (the repaired defect)", "kind": "mutant", "rule": "C09-H", "edits": [
+        (S, "            prms = dict(prms)\n            if temperature is not None:", "            if temperature is not None:", 1)]},
+    {"name": "value-defined density keeps the caller's parameter list (the repaired defect)", "kind": "mutant", "rule": "C09-H", "edits": [
+        (S, "                self.params = [dict(p) for p in params]", "                self.params = params", 1)]},
+    {"name": "stored dictionaries copied with the copy method", "kind": "twin", "edits": [
+        (S, "            prms = dict(prms)\n            if temperature is not None:", "            prms = prms.copy()\n            if temperature is not None:", 1)]},
+]
